@@ -649,6 +649,6 @@ pub fn run_trace(rng: &mut Rng, rep: &mut Report) {
 }
 
 pub fn run(cfg: &RunCfg) -> Report {
-    let cases = cfg.cases(20_000, 800_000);
+    let cases = cfg.cases(300_000, 6_000_000);
     run_cases(cfg, 0, cases, Duration::from_secs(3600), |_c, rng, rep| run_trace(rng, rep))
 }
